@@ -5,10 +5,10 @@ name="$1"; shift
 cd /verif
 bak=$(mktemp -d)
 cp -r evidence "$bak/"
-git -C /repo apply /verif/seeded/$name/patch.diff || { echo "$name: patch does not apply"; exit 2; }
+git -C ${VERIF_REPO:-/repo} apply /verif/seeded/$name/patch.diff || { echo "$name: patch does not apply"; exit 2; }
 for c in "$@"; do
   out=$(./check $c 2>&1); rc=$?
   echo "$name vs $c: rc=$rc $(echo "$out" | grep -E 'VIOLATION|agree|KNOWN' | tail -1)"
 done
-git -C /repo checkout -- .
+git -C ${VERIF_REPO:-/repo} checkout -- .
 rm -rf evidence && mv "$bak/evidence" evidence && rmdir "$bak"
